@@ -120,3 +120,34 @@ def rand_optvar(rng, nv, pnone=0.4):
 
 
 CONNS = list(itertools.product([False, True], repeat=4))
+
+
+def gap_operand(rng, nv=None, k=None):
+    """few-node function over a LARGE variable count with arbitrary gaps between decision levels"""
+    if nv is None:
+        nv = rng.choice([40, 257, 300, 513, 1000, 2000])
+    if k is None:
+        k = rng.randrange(1, 5)
+    variables = sorted(rng.sample(range(nv), k))
+    if rng.random() < 0.5 and nv > 300:
+        # variables congruent modulo 256, adjacent, first and last
+        base = rng.randrange(0, 40)
+        variables = sorted({base, base + 256, min(nv - 1, base + 1), nv - 1, 0} & set(range(nv)))[:5]
+    if rng.random() < 0.3 and nv > 300:
+        # same-shaped sub-diagrams on variables that agree modulo 256 (or modulo 2^k): ite(x_a, g(x_b), g(x_c))
+        b = rng.randrange(1, 40)
+        c = b + 256 * rng.randrange(1, max(2, (nv - 1 - b) // 256 + 1))
+        c = min(c, nv - 1)
+        a = rng.randrange(0, b)
+        neg = rng.random() < 0.5
+        variables = sorted({a, b, c})
+        fn = lambda asg: (asg[b] != neg) if asg[a] else (asg[c] != neg)
+        return nv, variables, bdd_from_fn(nv, variables, fn)
+    tt = [rng.random() < 0.5 for _ in range(1 << len(variables))]
+    return nv, variables, bdd_from_tt(nv, variables, tt)
+
+
+def gap_pair(rng):
+    nv, va, a = gap_operand(rng)
+    _, vb, b = gap_operand(rng, nv=nv)
+    return nv, sorted(set(va) | set(vb)), a, b
